@@ -140,10 +140,59 @@ class Oracle:
         self.pos = 0
         self.log: List[Tuple[Any, bool]] = []
 
+    def _implied(self, expr: Any) -> Optional[bool]:
+        """a comparison of an abstract integer with a constant that the facts assumed so far along this run already decide
+        (interval reasoning over the earlier comparisons of the same quantity with constants): a loop that counts up to a
+        quantity known to be at most c ends after c + 1 questions instead of asking for ever"""
+        if not (isinstance(expr, tuple) and len(expr) == 3 and expr[0] in ("<", "<=", ">", ">=", "==", "!=") and isinstance(expr[2], int) and not isinstance(expr[2], bool)):
+            return None
+        lo, hi = None, None  # known: lo <= q <= hi
+        for e, v in self.log:
+            if not (isinstance(e, tuple) and len(e) == 3 and e[0] in ("<", "<=", ">", ">=", "==") and isinstance(e[2], int) and not isinstance(e[2], bool)):
+                continue
+            try:
+                same = e[1] == expr[1]
+            except Exception:
+                same = False
+            if same is not True:
+                continue
+            op, c = e[0], e[2]
+            if not v:
+                op = {"<": ">=", "<=": ">", ">": "<=", ">=": "<", "==": "!="}[op]
+            if op == "<":
+                hi = c - 1 if hi is None else min(hi, c - 1)
+            elif op == "<=":
+                hi = c if hi is None else min(hi, c)
+            elif op == ">":
+                lo = c + 1 if lo is None else max(lo, c + 1)
+            elif op == ">=":
+                lo = c if lo is None else max(lo, c)
+            elif op == "==":
+                lo = c if lo is None else max(lo, c)
+                hi = c if hi is None else min(hi, c)
+        op, c = expr[0], expr[2]
+        if op == "<":
+            return True if hi is not None and hi < c else (False if lo is not None and lo >= c else None)
+        if op == "<=":
+            return True if hi is not None and hi <= c else (False if lo is not None and lo > c else None)
+        if op == ">":
+            return True if lo is not None and lo > c else (False if hi is not None and hi <= c else None)
+        if op == ">=":
+            return True if lo is not None and lo >= c else (False if hi is not None and hi < c else None)
+        if op == "==":
+            return True if lo is not None and lo == hi == c else (False if (hi is not None and hi < c) or (lo is not None and lo > c) else None)
+        if op == "!=":
+            return False if lo is not None and lo == hi == c else (True if (hi is not None and hi < c) or (lo is not None and lo > c) else None)
+        return None
+
     def decide(self, expr: Any, arity: int = 2) -> Any:
         for e, v in self.log:
             if e == expr:
                 return v
+        if arity == 2:
+            imp = self._implied(expr)
+            if imp is not None:
+                return imp
         if self.pos >= len(self.decisions):
             raise NeedDecision(expr, arity)
         v = self.decisions[self.pos]
